@@ -98,7 +98,7 @@ def _format_content_disposition(
     # NOTE(vytas): RFC 6266, Appendix D.
     #   Include a "filename" parameter when US-ASCII ([US-ASCII]) is
     #   sufficiently expressive.
-    if value.isascii():
+    if value.isascii() and value.isprintable():
         # NOTE: quoted-string (RFC 9110, Section 5.6.4): escape the two
         #   characters that would otherwise end or alter the string.
         escaped = value.replace('\\', '\\\\').replace('"', '\\"')
